@@ -1809,3 +1809,241 @@ func ruleMemoKeyComplete(c *Ctx) {
 		c.ob(rule, "no-memo", token.NoPos, true, "").Trivial = true
 	}
 }
+
+func init() {
+	registerRule("pool-reset-complete", 1, "an object handed back to a package-level sync.Pool has every one of its members reset (before the Put, or right after the Get) on every path", rulePoolResetComplete)
+}
+
+// rulePoolResetComplete (C16/C17): for every package-level sync.Pool, on the effect normal form of the functions
+// that Put into it and Get from it: a pooled value of a package struct type has each of its fields stored into (or,
+// for maps, emptied: delete in a loop over it, clear) on every path that reaches the Put, or on every path right
+// after the Get; a pooled value of a foreign type with a Reset method (bytes.Buffer) has Reset called on every such
+// path. A member that is reset on neither side carries what one call learnt into the next.
+func rulePoolResetComplete(c *Ctx) {
+	const rule = "pool-reset-complete"
+	var pools []*types.Var
+	for _, v := range c.pkgVars() {
+		if n, ok := types.Unalias(v.Type()).(*types.Named); ok && n.Obj().Pkg() != nil && n.Obj().Pkg().Path() == "sync" && n.Obj().Name() == "Pool" {
+			pools = append(pools, v)
+		}
+	}
+	if len(pools) == 0 {
+		c.ob(rule, "no-pool", token.NoPos, true, "").Trivial = true
+		return
+	}
+	isPoolCall := func(sc *svCall, pool *types.Var, name string) bool {
+		f, ok := sc.callee.(*types.Func)
+		if !ok || f.Name() != name || f.Pkg() == nil || f.Pkg().Path() != "sync" {
+			return false
+		}
+		switch r := sc.recv.(type) {
+		case svAddr:
+			return r.p.root == pool && len(r.p.steps) == 0
+		case svPath:
+			return r.root == pool && len(r.steps) == 0
+		}
+		return false
+	}
+	// objKey identifies the pooled object a location lies below: the root variable, or the call it came from
+	sameObj := func(a, b sval) bool {
+		strip := func(v sval) sval {
+			if p, ok := v.(svPath); ok && p.root == nil && p.via != nil && len(p.steps) == 0 {
+				return p.via
+			}
+			if ad, ok := v.(svAddr); ok && len(ad.p.steps) == 0 {
+				return ad.p
+			}
+			return v
+		}
+		return svEqual(strip(a), strip(b))
+	}
+	below := func(dst svPath, obj sval) (string, bool) {
+		// the object is itself a location (ctx := r.context; ... Put(ctx)): what lies below that location
+		if op, isP := obj.(svPath); isP && op.root != nil && dst.root == op.root {
+			strip := func(steps []string) []string {
+				var out []string
+				for _, s := range steps {
+					if s != "*" {
+						out = append(out, s)
+					}
+				}
+				return out
+			}
+			os, ds := strip(op.steps), strip(dst.steps)
+			if len(ds) >= len(os) {
+				same := true
+				for i := range os {
+					if ds[i] != os[i] {
+						same = false
+					}
+				}
+				if same {
+					if len(ds) == len(os) {
+						return "", true
+					}
+					return ds[len(os)], true
+				}
+			}
+			return "", false
+		}
+		var base sval
+		if dst.root != nil {
+			base = svPath{root: dst.root}
+		} else {
+			base = dst.via
+		}
+		if base == nil || !sameObj(base, obj) {
+			return "", false
+		}
+		return firstStep(dst), true
+	}
+	for _, pool := range pools {
+		var elem types.Type
+		resetOnPut := map[string]bool{} // fields reset on every path before the Put
+		resetOnGet := map[string]bool{} // fields set on every path after the Get
+		putPaths, getPaths := 0, 0
+		wholeOnPut, wholeOnGet := true, true // for Reset()-style types: Reset called on every path
+		var putPos token.Pos
+		for _, fd := range c.allFuncDecls() {
+			if fd.Body == nil {
+				continue
+			}
+			uses := false
+			ast.Inspect(fd.Body, func(n ast.Node) bool {
+				if id, ok := n.(*ast.Ident); ok && c.objOf(id) == types.Object(pool) {
+					uses = true
+				}
+				return true
+			})
+			if !uses {
+				continue
+			}
+			paths, unsup := c.simulate(fd, func(*types.Func) bool { return false })
+			if unsup != "" {
+				c.undecided(rule, pool.Name()+":"+c.funcName(fd), fd.Pos(), "a function that uses the pool is outside the fragment the normaliser supports: "+unsup)
+				continue
+			}
+			c.saw(c.funcName(fd))
+			for _, p := range paths {
+				for ei, e := range p.effs {
+					if e.kind != "call" {
+						continue
+					}
+					switch {
+					case isPoolCall(e.call, pool, "Put") && len(e.call.args) == 1:
+						obj := e.call.args[0]
+						if elem == nil && e.call.call != nil && len(e.call.call.Args) == 1 {
+							elem = c.typeOf(e.call.call.Args[0])
+						}
+						putPos = e.pos
+						putPaths++
+						here := map[string]bool{}
+						reset := false
+						for _, g := range p.effs[:ei] {
+							switch g.kind {
+							case "write":
+								if f, ok := below(g.dst, obj); ok {
+									if f == "" {
+										reset = true // the whole object overwritten
+									}
+									here[f] = true
+								}
+							case "call":
+								if g.call.callee == nil && g.call.call != nil && len(g.call.args) >= 1 && (c.isBuiltin(g.call.call, "delete") || c.isBuiltin(g.call.call, "clear")) {
+									if q, isP := g.call.args[0].(svPath); isP {
+										if f, ok := below(q, obj); ok {
+											here[f] = true
+										}
+									}
+								}
+								if f, isF := g.call.callee.(*types.Func); isF && f.Name() == "Reset" && g.call.recv != nil && sameObj(g.call.recv, obj) {
+									reset = true
+								}
+							}
+						}
+						// a map walked for no element is empty already
+						for _, cd := range p.conds {
+							if cd.loop && cd.neg {
+								if q, isP := cd.v.(svPath); isP {
+									if f, ok := below(q, obj); ok {
+										here[f] = true
+									}
+								}
+							}
+						}
+						if !reset {
+							wholeOnPut = false
+						}
+						if putPaths == 1 {
+							resetOnPut = here
+						} else {
+							for f := range resetOnPut {
+								if !here[f] {
+									delete(resetOnPut, f)
+								}
+							}
+						}
+					case isPoolCall(e.call, pool, "Get"):
+						getPaths++
+						obj := sval(svCall{id: e.call.id, callee: e.call.callee, idx: 0})
+						here := map[string]bool{}
+						reset := false
+						for _, g := range p.effs[ei+1:] {
+							switch g.kind {
+							case "write":
+								if f, ok := below(g.dst, obj); ok {
+									here[f] = true
+								}
+							case "call":
+								if f, isF := g.call.callee.(*types.Func); isF && f.Name() == "Reset" && g.call.recv != nil && sameObj(g.call.recv, obj) {
+									reset = true
+								}
+							}
+						}
+						if !reset {
+							wholeOnGet = false
+						}
+						if getPaths == 1 {
+							resetOnGet = here
+						} else {
+							for f := range resetOnGet {
+								if !here[f] {
+									delete(resetOnGet, f)
+								}
+							}
+						}
+					}
+				}
+			}
+		}
+		if putPaths == 0 {
+			c.ob(rule, pool.Name()+":reset", pool.Pos(), true, "").Trivial = true
+			continue
+		}
+		key := pool.Name() + ":reset"
+		st, isStruct := derefType(elem).Underlying().(*types.Struct)
+		named, _ := types.Unalias(derefType(elem)).(*types.Named)
+		if elem == nil || !isStruct || named == nil || named.Obj().Pkg() != c.Types {
+			// a type of another package: its own Reset
+			ok := wholeOnPut || getPaths > 0 && wholeOnGet
+			c.ob(rule, key, putPos, ok, "an object goes back to "+pool.Name()+" on a path on which it was not Reset (and it is not Reset on every path right after Get either): the next user starts with what this one left in it")
+			continue
+		}
+		if wholeOnPut {
+			c.ob(rule, key, putPos, true, "")
+			continue
+		}
+		var missing []string
+		for i := 0; i < st.NumFields(); i++ {
+			f := st.Field(i).Name()
+			// (locks and other values of package sync carry no data of a call)
+			if fn, isN := types.Unalias(derefType(st.Field(i).Type())).(*types.Named); isN && fn.Obj().Pkg() != nil && fn.Obj().Pkg().Path() == "sync" {
+				continue
+			}
+			if !resetOnPut[f] && !(getPaths > 0 && resetOnGet[f]) {
+				missing = append(missing, f)
+			}
+		}
+		c.ob(rule, key, putPos, len(missing) == 0, fmt.Sprintf("a %s goes back to %s with %s neither reset before the Put nor set after the Get on every path: what one call stored there is seen by the next one", named.Obj().Name(), pool.Name(), strings.Join(missing, ", ")))
+	}
+}
